@@ -259,12 +259,17 @@ func TestC13_StringAPI(t *testing.T) {
 
 func TestC13_FixedShapes(t *testing.T) {
 	c := harness.New(t, "C13", "fixed-shapes",
-		"every fault form x every kind of multi-line token placed directly before it (k = 1..3 newlines inside: text LF, text CRLF, string literal, comment, multi-line {{ }} block, multi-line directive header, escape, nothing) x the fault first on its line / after text on its line. Non-trivial: all with k >= 1. Distinct by construction.")
+		"every fault form x every kind of multi-line token placed directly before it (k = 1..3 newlines inside: text LF, text CRLF, string literal, comment, multi-line {{ }} block, multi-line directive header, escape, nothing; text runs, strings and comments of 1.5 to 80 KiB, a line of 70 000 bytes, 3000 empty lines) x the fault first on its line / after text on its line. Non-trivial: all with k >= 1. Distinct by construction.")
 	defer c.Finish()
 	befores := []struct{ name, src string }{
 		{"none", ""}, {"text-lf", "a\nb\n"}, {"text-crlf", "a\r\nb\r\n"}, {"string", "{{ \"s\n\nt\" }}"}, {"comment", "{{-- c\n\n\nc --}}"},
 		{"multi-line-block", "{{\n1\n+\n2\n}}"}, {"multi-line-header", "@if(\ntrue\n)\nx\n@end"}, {"escape", "\\{{ x }}\n\\@if(y)\n"}, {"assign-string", "{{ v = 'q\nq' }}"},
 		{"each-header", "@each(e in [\n1,\n2\n]){{ e }}\n@end"}, {"non-ascii", "日本\né\n"},
+		// long text: more than 1 KiB, 4 KiB, 64 KiB in one run (starting with a line end, right after a
+		// block), one line of 70 000 bytes, thousands of lines
+		{"long-run-after-block", "{{ 1 }}\n" + strings.Repeat("abcdefghi\n", 150)}, {"long-run-4k", "\n" + strings.Repeat("0123456 89abcde\n", 300) + "<p>"},
+		{"long-run-crlf", "{{ 1 }}\r\n" + strings.Repeat("line\r\n", 400)}, {"long-line", strings.Repeat("x", 70000) + "\n"}, {"many-lines", strings.Repeat("\n", 3000)},
+		{"long-run-64k", "<style>\n" + strings.Repeat(".a-b: c;\n", 8000) + "</style>\n"}, {"long-string", "{{ \"" + strings.Repeat("s\n", 600) + "\" }}"}, {"long-comment", "{{-- " + strings.Repeat("c c\n", 500) + " --}}"},
 	}
 	idx := 0
 	for _, ff := range c13Faults() {
